@@ -485,6 +485,29 @@ def run(ctx):
         ctx.unknown('R02ad', trm_, None, 'no token built from a get_specials_spec() result in the token reader',
                     construct='get_specials_spec use')
 
+    # ---- R02ae: any white space may precede a delimited verbatim argument
+    ctx.rule('R02ae', 'LatexDelimitedVerbatimParser.parse: on every path the first character read from the input (the opening '
+                      'delimiter, given or auto-detected) is read after skip_space_chars(): like every other argument, a '
+                      'verbatim argument may be separated from what precedes it by blanks, tabs and a single line break -- a '
+                      'hand-written skip of some white-space characters only makes a newline the "delimiter" and the structure '
+                      'depend on the layout (syntax-directed walk shared with C01 R01x)', 1)
+    from . import c01 as _c01v
+    vm_ = repo.mod('pylatexenc.latexnodes.parsers._verbatim')
+    vp_ = vm_.methods('LatexDelimitedVerbatimParser').get('parse')
+    if vp_ is None:
+        raise AnalysisError('anchor vanished: LatexDelimitedVerbatimParser.parse')
+    n2e = 0
+    for evs_, rd_ in _c01v.verbatim_first_read_paths(vp_):
+        n2e += 1
+        kinds_ = [k_ for k_, _n in evs_]
+        ctx.decide('R02ae', 'SKIP' in kinds_, vm_, rd_, 'white space skipped before the delimiter is read',
+                   'LatexDelimitedVerbatimParser.parse reads from the input (%s) on a path [%s] on which skip_space_chars() has '
+                   'not been called: white space the token reader would skip (a line break before the argument) is taken for '
+                   'the opening delimiter or compared with it' % (short(rd_, 50), ' > '.join(kinds_ + ['READ'])),
+                   construct='verbatim argument: first read [%s]' % ' > '.join(kinds_ + ['READ']))
+    if not n2e:
+        ctx.unknown('R02ae', vm_, vp_, 'no path that reads the opening delimiter found', construct='verbatim argument: first read')
+
     # ---- R02aa (C17 P2/P4), R02ab (C10 R10h)
     ctx.rule('R02aa', 'the lookup tables cached on a parsing state are reused from the parent only when no field they depend on '
                       'changes: math opened inside math (`\\[ a \\hbox{if $x$ then} b \\]`) otherwise expects the OUTER closing '
